@@ -43,6 +43,6 @@ def run(tier, replay=None):
         K.run_into(out, build, problems, PROP, tier, ["spec_C02"], lambda rng, n: G.gen_many(rng, n), 1400, 30000, RULE,
                    replay=replay)
     if not replay or is_elab_replay:
-        E.run(out, build, problems, PROP, tier, ["spec_C04"], E.default_gen, 300, 8000, RULE_E, replay=replay,
+        E.run(out, build, problems, PROP, tier, ["spec_C04"], E.default_gen, 600, 12000, RULE_E, replay=replay,
               known={"spec_C04": "kf_C04_accept_all"})
     return out.finish()
